@@ -364,8 +364,22 @@ func run(c *common.Ctx) *common.Result {
 					bad = "the shared tree was modified by the interleaved runs"
 				}
 				if bad != "" && !reported {
-					reported = true
 					choices := append([]int{}, r.Choices...)
+					// replay the recorded schedule before trusting the failure
+					r2 := &explore.Run{Prefix: choices}
+					outs2, verdict2, _ := interleaved(p, stmt, n, r2, false)
+					same := r2.Err == nil && verdict2 == verdict
+					for t := range outs {
+						if same && outs2[t].key() != outs[t].key() {
+							same = false
+						}
+					}
+					if !same {
+						res.Note("a failing interleaving of " + p.Name + " did not replay identically: not reported")
+						res.Cap("an execution did not replay identically (machinery)")
+						return true
+					}
+					reported = true
 					res.Violate(common.Violation{Class: "interleaved-differs-from-solo", Case: p.Src, Detail: bad + " | schedule=" + fmt.Sprint(choices),
 						Replay: replayData{Prog: p, Mode: "interleaved", Threads: n, Choices: choices}})
 					return false // one counterexample per program
